@@ -8,9 +8,9 @@ import e2, build
 c = Check('C16')
 # E2: floating point bit-exact, every raw draw an input
 src = os.path.join(build.VERIF, 'cbmc', 'c16_dice.c')
-e2.run_harness(c, c.d, 'dice-bit-exact-2^31', src, ['LIMIT=2147483648LL'], unwind=65, timeout=600)
+e2.run_harness(c, c.d, 'dice-bit-exact-2^31', src, ['LIMIT=2147483648LL'], unwind=65, timeout=600, link_lib=True)
 if c.tier == 'thorough':
-    e2.run_harness(c, c.d, 'dice-bit-exact-2^52', src, ['LIMIT=4503599627370496LL'], unwind=65, timeout=1800, backend=('--sat-solver', 'cadical'))
+    e2.run_harness(c, c.d, 'dice-bit-exact-2^52', src, ['LIMIT=4503599627370496LL'], unwind=65, timeout=1800, backend=('--sat-solver', 'cadical'), link_lib=True)
 
 fams = []
 def fam(name, entry, tier='quick', witness=False, w=1, opts=None, **kw):
@@ -32,12 +32,39 @@ fam('negative-binomial-boundary-p', 'e_negbinomial', opts={'enum_limit': 300, 's
 fam('geometric-p-half', 'e_geometric', tier='thorough', opts={'enum_limit': 300, 'skip_functions': ['@cmi_random_exp_not_hot']}, NPS=2, w=30)
 fam('exponential-hot-path', 'e_exponential', tier='thorough', opts={'enum_limit': 300, 'skip_functions': ['@cmi_random_exp_not_hot']}, w=4)
 fam('loaded-dice-n4', 'e_loaded_dice', tier='thorough', NN=4, w=10)
+# samplers built on the ziggurat hot paths, the base uniform variate and libm (log/exp/pow as uninterpreted functions with
+# sign contracts; sqrt as an exact root): rejection loops cut after max_draws raw draws, ziggurat layers as listed
+NOTHOT = ['@cmi_random_exp_not_hot', '@cmi_random_nor_not_hot']
+def zfam(name, entry, md, layers=(0, 1, 128, 250), tier='quick', w=4, **kw):
+    fam(name, entry, tier=tier, w=w, opts={'exact_roots': 0, 'int_links': 1, 'unknown_both': 1, 'query_timeout_ms': 10000, 'enum_limit': 300,
+                                           'skip_functions': NOTHOT, 'max_draws': md, 'draw_low_bytes': list(layers)}, **kw)
+zfam('logistic', 'e_logistic', 3, w=1)
+zfam('std-gamma-any-shape', 'e_std_gamma', 2, SHAPE_SYM=1, w=8)
+zfam('gamma-4-shapes', 'e_gamma', 3, SHAPE_SYM=0, w=4)
+zfam('beta-2x2-shapes', 'e_beta', 6, layers=(1,), SHAPE_SYM=0, NSHAPE=2, w=40)
+zfam('pert-3-triples', 'e_pert', 4, layers=(1, 250), SHAPE_SYM=0, w=20)
+zfam('chi-squared', 'e_chisq_f_t', 3, layers=(1, 250), SHAPE_SYM=0, NSHAPE=2, WHICH=0, w=2)
+zfam('F-dist', 'e_chisq_f_t', 6, layers=(1,), SHAPE_SYM=0, NSHAPE=2, WHICH=1, w=15)
+zfam('t-dist', 'e_chisq_f_t', 5, layers=(1, 250), SHAPE_SYM=0, NSHAPE=2, WHICH=2, w=12)
+zfam('exponential-erlang-hypo-hyper-weibull', 'e_exp_family', 3, w=2)
+zfam('normal-lognormal-rayleigh-cauchy', 'e_normal_family', 3, w=3)
+zfam('poisson', 'e_poisson', 4, w=4)
+ALL_LAYERS = tuple(range(0, 253))
+zfam('exponential-family-all-layers', 'e_exp_family', 3, layers=ALL_LAYERS, tier='thorough', w=30)
+zfam('normal-family-all-layers', 'e_normal_family', 3, layers=ALL_LAYERS, tier='thorough', w=40)
+zfam('gamma-4-shapes-deeper', 'e_gamma', 5, SHAPE_SYM=0, tier='thorough', w=30)
+zfam('std-gamma-any-shape-deeper', 'e_std_gamma', 4, layers=(1, 250), SHAPE_SYM=1, tier='thorough', w=40)
 c.run_e1(fams, assumptions=['every call of cmb_random_sfc64 returns an arbitrary 64-bit value (a sound over-approximation of the stream for a support claim)',
                             'E1: parameters and arithmetic are exact reals (rounding outside); exp/log/pow are uninterpreted functions with sign/monotonicity contracts; E2: doubles bit-exact',
-                            'geometric / negative binomial / exponential: only the ziggurat hot path (table look-up, about 98.9 % of the draws); paths entering cmi_random_exp_not_hot are cut', 'NOT decided here: uniform/triangular under IEEE rounding (CBMC: no verdict in 300 s), the ziggurat rejection loops of the exponential and normal samplers and everything built on them (gamma, beta, PERT, Weibull, chi-squared, F, t, Rayleigh, lognormal, Erlang, hypo-/hyperexponential, Poisson)',
+                            'geometric / negative binomial / exponential: only the ziggurat hot path (table look-up, about 98.9 % of the draws); paths entering cmi_random_exp_not_hot are cut', 'samplers built on the ziggurat (normal, lognormal, Rayleigh, Cauchy, exponential, Erlang, hypo-/hyperexponential, Weibull, Poisson, gamma, beta, PERT, chi-squared, F, t) and the logistic: hot paths of the ziggurat for the listed layers (low byte of the raw draw: quick 1-4 layers, thorough all 253 for the one-draw samplers), rejection / redraw loops cut after max_draws raw draws per call chain (3-6), shape parameters: std_gamma any shape in [0.01, 4] for the first iteration, the others for 2-4 concrete shapes on both sides of 1 (0.125, 0.5, 1, 2.5), PERT for three concrete (min, mode, max) triples',
+                            'NOT decided here: uniform/triangular under IEEE rounding (CBMC: no verdict in 300 s), the not-hot paths of the two ziggurat samplers (cmi_random_exp_not_hot / cmi_random_nor_not_hot, about 1.1 % of the draws) and the generated tables themselves, floating-point underflow / overflow in the composed samplers (exact reals)',
+                            'a branch whose feasibility the solver leaves undecided within 10 s is followed on both sides (every assertion on it is still decided, a violation still needs a model); such paths are counted as feasibility_undecided in the evidence parts',
                             'NOT applicable: "samples follow the stated distribution ... converge": a limit statement about infinitely many draws'],
          bounds=['dice: all a < b within +-2^31 (thorough 2^52) and every draw; loaded dice / alias tables with 1-3 (thorough 4) symbolic probabilities summing to one within 1e-3; geometric / negative binomial at p = 1 (thorough also 0.5)'])
 c.finish(functions=['cmb_random (header)', 'cmb_random_uniform', 'cmb_random_bernoulli', 'cmb_random_flip', 'cmb_random_triangular', 'cmb_random_dice', 'cmb_random_loaded_dice',
-                    'cmb_random_alias_create/sample', 'cmb_random_pareto', 'cmb_random_binomial', 'cmb_random_geometric', 'cmb_random_negative_binomial', 'cmb_random_std_exponential (hot path)'],
+                    'cmb_random_alias_create/sample', 'cmb_random_pareto', 'cmb_random_binomial', 'cmb_random_geometric', 'cmb_random_negative_binomial', 'cmb_random_std_exponential (hot path)',
+                    'cmb_random_std_normal (hot path)', 'cmb_random_normal', 'cmb_random_lognormal', 'cmb_random_logistic', 'cmb_random_cauchy', 'cmb_random_rayleigh', 'cmb_random_exponential', 'cmb_random_erlang',
+                    'cmb_random_hypoexponential', 'cmb_random_hyperexponential', 'cmb_random_weibull', 'cmb_random_poisson', 'cmb_random_std_gamma', 'cmb_random_gamma', 'cmb_random_std_beta', 'cmb_random_beta',
+                    'cmb_random_PERT', 'cmb_random_PERT_mod', 'cmb_random_chisquared', 'cmb_random_F_dist', 'cmb_random_std_t_dist', 'cmb_random_t_dist'],
          trusted=['cbmc 6.11 (SAT, IEEE semantics)', 'E1 interpreter', 'z3 5.1'],
          explanation='support of the samplers for every raw draw: the draw is a solver variable')
